@@ -1,14 +1,13 @@
 #!/usr/bin/env python3
+"""store_seeded.py <src dir> <id> <what was run to confirm>  - copy a confirmed sub-agent change into seeded/<id>/"""
 import json, sys, shutil, os
-for m in sys.argv[1:]:
-    prop, k = m.split('/')
-    id = f'{prop}-{k}'
-    d = f'/verif/seeded/{id}'
-    os.makedirs(d, exist_ok=True)
-    for f in ('patch.diff', 'demo.rs'):
-        shutil.copy(f'/tmp/seeded_out/{m}/{f}', d)
-    meta = json.load(open(f'/tmp/seeded_out/{m}/meta.json'))
-    meta['confirmed_by_me'] = ['scratch worktree /tmp/wt/confirm at /repo HEAD: `cargo test --offline --test demo` passes on pristine, fails with patch.diff applied; `cargo test --workspace --no-fail-fast --offline` with the patch: 699 passed / the same 10 pre-existing failures']
-    meta['source'] = 'independent sub-agent given only the property text and its own worktree'
-    json.dump(meta, open(f'{d}/meta.json', 'w'), indent=1)
-    print('stored', id)
+src, id, ran = sys.argv[1:4]
+d = f'/verif/seeded/{id}'
+os.makedirs(d, exist_ok=True)
+for f in ('patch.diff', 'demo.rs'):
+    shutil.copy(os.path.join(src, f), d)
+meta = json.load(open(os.path.join(src, 'meta.json')))
+meta['confirmed_by_me'] = [ran]
+meta['source'] = 'independent sub-agent given only the property text and its own worktree'
+json.dump(meta, open(f'{d}/meta.json', 'w'), indent=1)
+print('stored', id)
